@@ -207,18 +207,17 @@ def run_model(family, lines, timeout=900, extra_args=()):
     return out
 
 
-def run_real(runner, case_lines, timeout_per_batch=600, batch=200):
-    """Run cases on the real implementation. A runner process that dies (abort, SIGSEGV, native stack
-    overflow, hang) is bisected: the killing case is reported as {"id":…, "crash": rc} and the rest go on."""
+def _run_real_chunk(runner, case_lines, timeout_per_batch):
     results = []
     i = 0
     n = len(case_lines)
     while i < n:
-        chunk = case_lines[i:i + batch]
+        chunk = case_lines[i:]
         try:
             out, rc, err = run_lines([runner], chunk, timeout=timeout_per_batch)
         except subprocess.TimeoutExpired as e:
-            out = (e.stdout or b"").decode("utf-8", "replace").splitlines() if isinstance(e.stdout, bytes) else (e.stdout or "").splitlines()
+            raw = e.stdout or b""
+            out = (raw.decode("utf-8", "replace") if isinstance(raw, bytes) else raw).split("\n")
             rc = "timeout"
         parsed = []
         for l in out:
@@ -226,6 +225,7 @@ def run_real(runner, case_lines, timeout_per_batch=600, batch=200):
                 parsed.append(json.loads(l))
             except Exception:
                 break
+        parsed = parsed[:len(chunk)]
         results.extend(parsed)
         if len(parsed) < len(chunk):
             bad = chunk[len(parsed)]
@@ -235,6 +235,24 @@ def run_real(runner, case_lines, timeout_per_batch=600, batch=200):
         else:
             i += len(chunk)
     return results
+
+
+def run_real(runner, case_lines, timeout_per_batch=600, batch=200, workers=None):
+    """Run cases on the real implementation (every case runs in a thread of its own with its own heap, so cases are independent and
+    batches run in parallel processes; results keep the order of the cases). A runner process that dies (abort, SIGSEGV, native stack
+    overflow, hang) is bisected: the killing case is reported as {"id":…, "crash": rc} and the rest go on."""
+    if not case_lines:
+        return []
+    workers = workers or int(os.environ.get("VERIF_WORKERS", "0")) or min(12, os.cpu_count() or 1)
+    batch = min(batch, max(25, -(-len(case_lines) // workers)))
+    chunks = [case_lines[i:i + batch] for i in range(0, len(case_lines), batch)]
+    if len(chunks) == 1 or workers <= 1:
+        outs = [_run_real_chunk(runner, c, timeout_per_batch) for c in chunks]
+    else:
+        from concurrent.futures import ThreadPoolExecutor
+        with ThreadPoolExecutor(max_workers=workers) as ex:
+            outs = list(ex.map(lambda c: _run_real_chunk(runner, c, timeout_per_batch), chunks))
+    return [r for o in outs for r in o]
 
 
 def case_line(cid, step_list, **opts):
